@@ -50,6 +50,40 @@ fn main() {
         }
         return;
     }
+    if args[1] == "compile-replays" {
+        // explore compile-replays <dir>: every replay file's (wgsl, config) generated and type-checked in ONE batch
+        let mut cases = vec![];
+        let mut names = vec![];
+        for (i, e) in std::fs::read_dir(&args[2]).unwrap().flatten().enumerate() {
+            let v: serde_json::Value = serde_json::from_str(&std::fs::read_to_string(e.path()).unwrap()).unwrap();
+            let (src, cfg) = (v["detail"]["wgsl"].as_str().unwrap_or("").to_string(), v["detail"]["config"].as_str().and_then(common::Config::from_key).unwrap_or_default());
+            if let common::Outcome::Ok(t) = common::generate(&src, &cfg) {
+                let name = format!("c_{i:04}");
+                names.push((name.clone(), v["case"].to_string()));
+                cases.push(probe::ProbeCase { name, generated: t, probe_body: String::new(), probe_items: String::new(), files: vec![] });
+            }
+        }
+        for r in probe::run_batch("DBG", &cases, false) {
+            let case = names.iter().find(|(n, _)| *n == r.name).map(|(_, c)| c.clone()).unwrap_or_default();
+            println!("{} {} {:?}", r.name, case, r.check);
+        }
+        return;
+    }
+    if args[1] == "compile" {
+        // explore compile <file.wgsl> [config key]: generate and type-check the module against the real crates
+        let src = std::fs::read_to_string(&args[2]).unwrap();
+        let cfg = args.get(3).and_then(|k| common::Config::from_key(k)).unwrap_or_default();
+        match common::generate(&src, &cfg) {
+            common::Outcome::Ok(t) => {
+                let case = probe::ProbeCase { name: "c_debug".into(), generated: t, probe_body: String::new(), probe_items: String::new(), files: vec![] };
+                for r in probe::run_batch("DBG", &[case], false) {
+                    println!("{:?}", r.check);
+                }
+            }
+            other => println!("{other:?}"),
+        }
+        return;
+    }
     if args[1] == "setup" {
         probe::setup();
         c18::setup();
